@@ -485,7 +485,18 @@ func (c *evalCtx) evalCall(n *ast.CallExpr) Value {
 		savedNames, savedHeap := c.names, c.s.heap
 		c.names, c.s.heap = snap.names, snap.heap
 		defer func() { c.names, c.s.heap = savedNames, savedHeap }()
-		return c.eval(n.Args[0])
+		v := c.eval(n.Args[0])
+		// a slice value refers to its backing store: take the elements as they were in the snapshot
+		// (the snapshot's own sequence object is kept, so that the value is recognised as the same sequence
+		// wherever else it is mentioned)
+		if sl, ok := v.(VSlice); ok {
+			if sl.Obj != nil {
+				v = c.e.toPure(c.s, sl)
+			}
+		} else if pv := c.e.purify(c.s, v); pv != nil {
+			v = pv
+		}
+		return v
 	case "len":
 		v := c.deref(c.eval(n.Args[0]))
 		switch x := v.(type) {
@@ -906,6 +917,28 @@ func kindWidth(k string) (seq bool, width int) {
 	panic(execError{"recdef: unknown kind " + k})
 }
 
+var usesLenCache = map[string]bool{}
+
+func bodyUsesLen(rd *RecDef, param string) bool {
+	key := rd.Name + "/" + param
+	if v, ok := usesLenCache[key]; ok {
+		return v
+	}
+	found := false
+	ast.Inspect(rd.Body, func(n ast.Node) bool {
+		if ce, ok := n.(*ast.CallExpr); ok {
+			if id, ok := ce.Fun.(*ast.Ident); ok && id.Name == "len" && len(ce.Args) == 1 {
+				if a, ok := ce.Args[0].(*ast.Ident); ok && a.Name == param {
+					found = true
+				}
+			}
+		}
+		return !found
+	})
+	usesLenCache[key] = found
+	return found
+}
+
 func (c *evalCtx) callRecDef(rd *RecDef, n *ast.CallExpr) Value {
 	if len(n.Args) != len(rd.Params) {
 		panic(execError{"contract: wrong argument count for " + rd.Name})
@@ -921,11 +954,15 @@ func (c *evalCtx) callRecDef(rd *RecDef, n *ast.CallExpr) Value {
 		}
 		if seq {
 			sl, ok := vals[i].(VSlice)
-			if !ok || !sl.Len.IsConst() || !sl.Off.IsConst() {
+			if !ok {
+				concrete = false
+			} else if (!sl.Len.IsConst() || !sl.Off.IsConst()) && bodyUsesLen(rd, rd.Params[i]) {
+				// a sequence of symbolic length can still be unfolded over when the definition never asks for
+				// its length (the recursion is then driven by the integer arguments alone)
 				concrete = false
 			}
 		} else if w == 1 {
-			if !c.intOf(vals[i]).IsConst() && rd.Kinds[i] == "int" && isRecursionIndex(rd, i) {
+			if !c.intOf(vals[i]).IsConst() && rd.Kinds[i] == "int" && (isRecursionIndex(rd, i) || inTopCondition(rd, rd.Params[i])) {
 				concrete = false
 			}
 		}
@@ -1130,6 +1167,9 @@ func (c *evalCtx) seqToArrays0(sl VSlice, width int) ([]*Term, *Term) {
 	if cached, ok := c.e.seqArrays[key]; ok {
 		return cached, Int64C(0)
 	}
+	if os.Getenv("GOVC_DEBUG") != "" {
+		fmt.Fprintf(os.Stderr, "seqarr miss key=%s obj=%v pure=%v len=%s off=%s\n", key, sl.Obj != nil, sl.Pure != nil, sl.Len, sl.Off)
+	}
 	// outer bound variables (the sequence is mentioned under a quantifier): the arrays become a family
 	// indexed by that variable
 	outer := map[*Term]bool{}
@@ -1176,6 +1216,25 @@ func (c *evalCtx) seqToArrays0(sl VSlice, width int) ([]*Term, *Term) {
 }
 
 // isRecursionIndex: an int parameter that the body changes in its recursive calls (i+1, k-1).
+// inTopCondition: the parameter occurs in the condition of the definition's top-level ite (the base-case test).
+func inTopCondition(rd *RecDef, param string) bool {
+	ce, ok := rd.Body.(*ast.CallExpr)
+	if !ok {
+		return false
+	}
+	if id, ok := ce.Fun.(*ast.Ident); !ok || id.Name != "ite" || len(ce.Args) < 1 {
+		return false
+	}
+	found := false
+	ast.Inspect(ce.Args[0], func(n ast.Node) bool {
+		if id, ok := n.(*ast.Ident); ok && id.Name == param {
+			found = true
+		}
+		return !found
+	})
+	return found
+}
+
 func isRecursionIndex(rd *RecDef, idx int) bool {
 	found := false
 	ast.Inspect(rd.Body, func(n ast.Node) bool {
